@@ -249,6 +249,13 @@ class _Captured(Exception):
         self.carry, self.ys = carry, ys
 
 
+class _PredTag:
+    """result of a constraint test `x < 1e-8`: remembers WHICH quantity was tested, so that the select it feeds can be checked"""
+
+    def __init__(self, operand):
+        self.operand = operand
+
+
 class _Oracle:
     """comparison oracle for the loop-body contract: constraint tests against the literals 1e-8 / 100 are false ('no
     constraint active'); the comparison of the uniform random number with the acceptance probability returns the
@@ -256,6 +263,23 @@ class _Oracle:
 
     def __init__(self, bit):
         self.bit, self.probs, self.constraints = bit, [], 0
+        self.guards = []         # per constraint select: True if the value passed through when the test is false IS the tested quantity
+
+    def select(self, it, e, ins):
+        """select_n fed by a tagged constraint test: `where(x < 1e-8, 0, y)` must have y == x (each field value is constrained by its OWN ratio)"""
+        pred = ins[0]
+        if not (is_obj(pred) and any(isinstance(v, _PredTag) for v in pred.reshape(-1))):
+            return None
+        keep = ins[1] if is_obj(ins[1]) else None       # select_n(pred, case_false, case_true): jnp.where(c, 0, y) -> case_false = y
+        ok = keep is not None and np.shape(keep) == np.shape(pred)
+        if ok:
+            for idx in np.ndindex(*pred.shape):
+                t = pred[idx]
+                ok = ok and isinstance(t, _PredTag) and (keep[idx] - t.operand).iszero()
+        self.guards.append(bool(ok))
+        if keep is None:
+            raise Unsupported("constraint select without a symbolic pass-through value")
+        return keep              # 'no constraint active' (as before): the pass-through value
 
     def primitive(self, it, p, e, ins):
         if p in ("lt", "gt", "le", "ge"):
@@ -265,6 +289,13 @@ class _Oracle:
                 if not is_obj(x) and np.ndim(x) == 0 and float(np.real(x)) in (1.0e-8, 100.0):
                     lit = float(np.real(x))
             shape = np.broadcast(np.asarray(a, dtype=object), np.asarray(b, dtype=object)).shape
+            if lit == 1.0e-8 and p == "lt" and is_obj(a) and not is_obj(b):
+                self.constraints += 1
+                out = np.empty(shape, dtype=object)
+                aa = np.broadcast_to(a, shape)
+                for idx in np.ndindex(*shape):
+                    out[idx] = _PredTag(aa[idx])
+                return out
             if lit is not None:
                 self.constraints += 1
                 return np.zeros(shape, dtype=bool)
@@ -354,7 +385,7 @@ def site_body(kind, fast=True, norb=2):
                 raise _Captured(c2, ys)
             try:
                 evaluate(sp, lambda hm, pdd, ff, wv: prop.propagate(trial, hm, pdd, ff, wv), (ham_s, pd_s, np.zeros((1, norb)), wave_s), (ham_x, pd_x, fields_x, wave_x),
-                         intercept={"propagate_one_body": one_body}, series=oracle, scan_hook=scan_hook)
+                         intercept={"propagate_one_body": one_body}, series=oracle, scan_hook=scan_hook, prim_hook={"select_n": oracle.select})
                 raise Unsupported("no site scan reached in propagate")
             except _Captured as cap:
                 full = jax.tree_util.tree_leaves(pd_s, is_leaf=lambda x: isinstance(x, np.ndarray))
@@ -396,6 +427,12 @@ def site_body(kind, fast=True, norb=2):
                 mk("greens", np.asarray(carry["greens"]).reshape(-1), np.asarray(G1).reshape(-1), "greens' = calc_full_green(walkers')  (invariant re-established)")
             mk("weights", np.asarray(carry["weights"]).reshape(-1), np.array([hw["V"].s[0] * norm], dtype=object),
                "weights' = w * [O(D_0 phi) + O(D_1 phi)] / (2 O(phi))")
+            gd = oracle.guards
+            o_g = ob(f"C10.cpmc.site.constraint{tagp}", DISCHARGED if (len(gd) >= 2 and all(gd)) else (REFUTED if gd and not all(gd) else UNDECIDED), kind="bounded", backend="ring",
+                     functions=fns, wall=time.time() - t0, witness_class="" if (len(gd) >= 2 and all(gd)) else "constraint-guards-other-field",
+                     detail=f"each constrained-path test `ratio < 1e-8` zeroes the ratio it tested (one per field value): {gd}",
+                     witness=None if (len(gd) >= 2 and all(gd)) else dict(guards=gd))
+            out.append(o_g)
             if len(oracle.probs) == 1:
                 pr = np.asarray(oracle.probs[0], dtype=object).reshape(-1)
                 mk("prob", pr, np.array([OD[0] / (OD[0] + OD[1])], dtype=object), "the uniform number is compared with O(D_0 phi)/(O(D_0 phi)+O(D_1 phi))")
@@ -410,6 +447,8 @@ def replay_site(o):
     H.setup_repo()
     import jax.numpy as jnp
     from ad_afqmc import wavefunctions as wf, propagation
+    if ".site.constraint" in o["name"]:
+        return _replay_constraint(o)
     kind = "ghf_cpmc" if "ghf_cpmc" in o["name"] else "uhf_cpmc"
     norb, nel = 3, (2, 1)
     rng = np.random.default_rng(11)
@@ -441,6 +480,33 @@ def replay_site(o):
     e_fs = float(max(jnp.max(jnp.abs(f["weights"] - s["weights"])), jnp.max(jnp.abs(f["walkers"][0] - s["walkers"][0]))))
     o["replayed"] = bool(max(e_ov, e_g, e_fs) > 1e-8)
     o["witness"] = dict(o.get("witness") or {}, native=dict(kind=kind, overlaps_vs_scratch=e_ov, greens_vs_scratch=e_g, fast_vs_slow=e_fs))
+
+
+def _replay_constraint(o):
+    """native replay: 2 sites, trial [1;1] per spin, walker up = [-3; 4] (G_up[0,0] = -3), walker dn = [1;1]: at site 0 the first field value has a
+    negative ratio (rejected), the second a positive one (allowed); with zero Gaussian fields the allowed value is chosen and the weight must be
+    w * ratio_1 / 2 > 0 after the site loop (one-body halves = identity)."""
+    import jax.numpy as jnp
+    from ad_afqmc import wavefunctions as wf, propagation
+    cls = propagation.propagator_cpmc if ",fast," in o["name"] else propagation.propagator_cpmc_slow
+    norb, nel, dt, U = 2, (1, 1), 0.05, 4.0
+    trial = wf.uhf_cpmc(norb, nel)
+    T_ = [jnp.array([[1.0], [1.0]]), jnp.array([[1.0], [1.0]])]
+    wave = {"mo_coeff": T_}
+    walkers = [jnp.array([[[-3.0], [4.0]]]), jnp.array([[[1.0], [1.0]]])]
+    gamma, const = np.arccosh(np.exp(dt * U / 2)), np.exp(-dt * U / 2)
+    hs = const * np.array([[np.exp(gamma), np.exp(-gamma)], [np.exp(-gamma), np.exp(gamma)]])
+    pd = dict(walkers=walkers, weights=jnp.ones(1), overlaps=trial.calc_overlap(walkers, wave).real, greens=trial.calc_full_green_vmap(walkers, wave),
+              pop_control_ene_shift=jnp.array(0.0), e_estimate=jnp.array(0.0), hs_constant=jnp.array(hs))
+    ham = dict(exp_h1=jnp.array([np.eye(norb)] * 2))
+    out = cls(dt=dt, n_walkers=1).propagate(trial, ham, pd, jnp.zeros((1, norb)), wave)
+    Gu, Gd = -3.0, 0.5
+    r0 = (1 + (hs[0, 0] - 1) * Gu) * (1 + (hs[0, 1] - 1) * Gd)
+    r1 = (1 + (hs[1, 0] - 1) * Gu) * (1 + (hs[1, 1] - 1) * Gd)
+    w = float(np.asarray(out["weights"])[0])
+    o["replayed"] = bool(not (np.isfinite(w) and w > 0))
+    o["witness"] = dict(o.get("witness") or {}, native=dict(walker_up=[-3.0, 4.0], walker_dn=[1.0, 1.0], ratio_field0_site0=float(r0), ratio_field1_site0=float(r1),
+                                                          weight_after_one_step=w, expected="finite and positive (field 1 is allowed at site 0)"))
 
 
 def kinetic(cls_name="propagator_cpmc", norb=2, nchol=2):
